@@ -328,6 +328,16 @@ def run_class(ctx, name, cls, seed, thorough):
         except instances.ConstructorRejected:
             continue
         probe(ctx, inst, rng, {"cls": name, "seedstr": seedstr, "profile": profile})
+        if pi == 2:
+            # the same with the full range of stored values (strings whose STORED text looks like an entity, odd zones, exponents):
+            # a copy that is rebuilt through the constructor would convert them a second time
+            try:
+                rich = instances.build(cls, random.Random(seedstr + "/rich"), "max", opts=instances.Opts(stratum="mixed", maxdepth=6))
+            except Exception:  # noqa
+                ctx.count("rich_instance_not_built")
+                continue
+            ctx.count("rich_instances_copied")
+            check_copies(ctx, rich, {"cls": name, "seedstr": seedstr, "profile": profile, "rich": True})
 
 
 def run_shard(ctx):
